@@ -131,6 +131,8 @@ impl<'a> Tx<'a> {
                 let inner: syn::Expr = syn::parse2(m.mac.tokens.clone()).ok()?;
                 Some(self.expr(&inner))
             }
+            // <tree node>.node: the entry part of a TreeNode is the same arena object
+            syn::Expr::Field(f) if matches!(&f.member, syn::Member::Named(i) if i == "node") => self.node_ptr(&f.base),
             syn::Expr::Unsafe(u) => match u.block.stmts.as_slice() {
                 [syn::Stmt::Expr(inner, None)] => self.node_ptr(inner),
                 _ => None,
@@ -335,6 +337,10 @@ impl<'a> Tx<'a> {
             }
             syn::Expr::Cast(c) => format!("({} as {})", self.expr(&c.expr), toks(&*c.ty)),
             syn::Expr::Let(l) if self.ops => format!("let {} = {}", toks(&*l.pat), self.expr(&l.expr)),
+            syn::Expr::Tuple(t) if self.ops => {
+                let es: Vec<String> = t.elems.iter().map(|e| self.expr(e)).collect();
+                format!("({})", es.join(", "))
+            }
             _ => {
                 self.err(&format!("expression `{}`", { let mut s = toks(e); s.truncate(60); s }), e.span());
                 String::new()
@@ -532,12 +538,49 @@ impl<'a> Tx<'a> {
                 let k = self.expr(&m.args[0]);
                 format!("h.hash_of({})", k)
             }
+            "clone" if self.ops => {
+                // R35: cloning a key / an Atomic<V> of a node copies the key / the value id
+                if let Some((p, f)) = self.node_field(&m.receiver) {
+                    return format!("h.{}({})", f, p);
+                }
+                self.expr(&m.receiver)
+            }
+            "unwrap_or" if self.ops => {
+                // R36: X.map(|v| <cond over v>).unwrap_or(d)  ->  match X { Some(v) => <cond>, None => d }
+                if let syn::Expr::MethodCall(inner) = &*m.receiver {
+                    if inner.method == "map" {
+                        if let Some(syn::Expr::Closure(cl)) = inner.args.first() {
+                            let x = self.expr(&inner.receiver);
+                            let v = cl.inputs.first().map(|p| toks(p)).unwrap_or_default();
+                            let body = self.expr(&cl.body);
+                            let d = self.expr(&m.args[0]);
+                            return format!("(match {} {{ Some({}) => {}, None => {} }})", x, v, body, d);
+                        }
+                    }
+                }
+                self.err("unwrap_or on an unknown shape", m.span());
+                String::new()
+            }
+            "map" if self.ops => {
+                // R37: unsafe { X.as_ref() }.map(move |v| BODY)  ->  { let v = X; Some(BODY) }   (value ids are never null)
+                let recv = match &*m.receiver { syn::Expr::Unsafe(u) => match u.block.stmts.as_slice() { [syn::Stmt::Expr(e, None)] => e.clone(), _ => (*m.receiver).clone() }, other => other.clone() };
+                if let (syn::Expr::MethodCall(ar), Some(syn::Expr::Closure(cl))) = (&recv, m.args.first()) {
+                    if ar.method == "as_ref" {
+                        let x = self.expr(&ar.receiver);
+                        let v = cl.inputs.first().map(|p| toks(p)).unwrap_or_default();
+                        let body = self.expr(&cl.body);
+                        return format!("{{ let {} = {}; Some({}) }}", v, x, body);
+                    }
+                }
+                self.err("map on an unknown shape", m.span());
+                String::new()
+            }
             "is_empty" if self.ops => {
                 let r = self.expr(&m.receiver);
                 format!("(h.tab_len({}) == 0)", r)
             }
-            "is_none" if self.ops => format!("({} is None)", self.expr(&m.receiver)),
-            "is_some" if self.ops => format!("({} is Some)", self.expr(&m.receiver)),
+            "is_none" if self.ops => format!("{}.is_none()", self.expr(&m.receiver)),
+            "is_some" if self.ops => format!("{}.is_some()", self.expr(&m.receiver)),
             "bini" if self.ops => {
                 let r = self.expr(&m.receiver);
                 let a = self.expr(&m.args[0]);
@@ -549,9 +592,11 @@ impl<'a> Tx<'a> {
                 format!("h.cas_bin({}, {})", r, args.join(", "))
             }
             "init_table" | "treeify_bin" | "try_presize" | "untreeify" if self.ops => {
-                let args: Vec<String> = m.args.iter().filter(|a| !is_drop_arg(a)).map(|a| self.expr(a)).collect();
                 let mut all = vec!["h".to_string(), "this".to_string()];
-                all.extend(args);
+                for a in m.args.iter().filter(|a| !is_drop_arg(a)) {
+                    let v = self.expr(a);
+                    all.push(self.hoist(v));
+                }
                 format!("{}({})", name, all.join(", "))
             }
             "find_or_put_tree_val" | "remove_tree_node" if self.ops => {
@@ -737,6 +782,10 @@ impl<'a> Tx<'a> {
                         // R2: node aliases
                         let is_node = match &*init.expr {
                             syn::Expr::Macro(mm) => mm.mac.path.is_ident("treenode"),
+                            syn::Expr::Reference(_) if self.ops => {
+                                let t = toks(&*init.expr);
+                                t.contains("get_tree_node") && t.replace(' ', "").ends_with(".node")
+                            }
                             syn::Expr::Unsafe(_) | syn::Expr::Call(_) | syn::Expr::MethodCall(_) => {
                                 let t = toks(&*init.expr);
                                 t.contains("get_tree_node") && !t.contains(".load(") && !t.contains(".store(")
